@@ -40,10 +40,11 @@ Fixpoint try_arg (ls : list limiter) (a : arg) : verdict :=
 
 Definition usize_max : N := 18446744073709551615.
 
-(* MaxCharsCommandSizeLimiter::new_system: ARG_MAX - 2048 - sum over env of (|k|+1 + |v|+1 + 8) - 16, saturating *)
+(* MaxCharsCommandSizeLimiter::new_system: ARG_MAX - 2048 (headroom) - 4096 (the file name the kernel copies when it executes
+   the command, up to PATH_MAX) - sum over env of (|k|+1 + |v|+1 + 8) - 16, saturating *)
 Definition env_size (env : list (N * N)) : N :=
   fold_right (fun kv s => (fst kv + 1) + (snd kv + 1) + 8 + s) 0 env.
-Definition sys_budget (arg_max : N) (env : list (N * N)) : N := arg_max - (2048 + env_size env + 16).
+Definition sys_budget (arg_max : N) (env : list (N * N)) : N := arg_max - (2048 + 4096 + env_size env + 16).
 Definition max_single_arg : N := 131072.
 
 Record config := {
